@@ -300,6 +300,24 @@ func (b *bkState) collectX(bc int, sortTail int) string {
 			rs = keep
 		}
 		if n == sortTail && len(rs) > 2 {
+			// the true order of what was resent goes to the spec oracles (C12) through a flag; the
+			// model/implementation comparison uses the canonical (sorted) form
+			var ord []string
+			for _, r := range rs[1:] {
+				if strings.HasPrefix(r, "PUB:") {
+					f := strings.Split(r, ":")
+					pl := ""
+					for _, x := range f {
+						if strings.HasPrefix(x, "p=") {
+							pl = x[2:]
+						}
+					}
+					ord = append(ord, pl+f[1]+f[2]+f[3])
+				}
+			}
+			if len(ord) > 1 {
+				flags = append(flags, fmt.Sprintf("order(c%d:%s)", n, strings.Join(ord, ".")))
+			}
 			sort.Strings(rs[1:])
 		}
 		if len(rs) > 0 {
